@@ -1,13 +1,13 @@
 #!/bin/bash
 # usage: own_eval.sh <name> "<checks>" : applies /verif/seeded/own/<name>.diff to /repo, runs suite + checks, reverts, records result.
 N=$1; CHECKS=$2; P=/verif/seeded/own/$N.diff
-cd /repo; [ -z "$(git status --porcelain --untracked-files=no)" ] || { echo "repo dirty"; exit 2; }
+cd ${MUTREPO:-/repo}; [ -z "$(git status --porcelain --untracked-files=no)" ] || { echo "repo dirty"; exit 2; }
 git apply $P || { echo "patch does not apply"; exit 2; }
 suite=$(cargo test --workspace --no-fail-fast --offline 2>&1 | grep -E "^test result|^error" | awk '{f+=$6; p+=$4} /^error/{e=1} END{print "passed="p" failed="f" build_error="(e?1:0)}')
 echo "$N suite: $suite"
 res="{"
 for c in $CHECKS; do
-  out=$(/verif/check $c ${TIER:-quick} 2>&1); code=$?
+  out=$(${MUTCHECK:-/verif/check} $c ${TIER:-quick} 2>&1); code=$?
   first=$(echo "$out" | grep -A1 "^VIOLATION" | grep "oracle=" | head -1 | cut -c1-220)
   echo "  $c -> exit $code $first"
   res="$res\"$c\": {\"exit\": $code, \"first_violation\": $(python3 -c 'import json,sys; print(json.dumps(sys.argv[1]))' "$first")},"
